@@ -60,6 +60,13 @@ def frame_ob(q):
         if f.findings:
             ln, what, txt = f.findings[0]
             wit = native_witness_for(q, seed)
+            AUG = "augmented assignment on an alias"
+            if not wit and all(AUG in w for _, w, _ in f.findings):
+                # `y = arg.field; y += k` only updates the argument when the field holds a mutable array *and* the statement
+                # runs eagerly; the native scenarios (device and host-restored states, eager and jit) saw no change: the
+                # statement is reached under a trace only (e.g. inside lax.cond), where `+=` rebinds
+                return dict(status="discharged", backend="frame+native(bounded)", bounded=True,
+                            sample=f"{f.path}:{ln}: `{txt}` — no argument changed in the native scenarios (host-restored states included)")
             if "module-level state" in what and not wit and all("module-level state" in w for _, w, _ in f.findings):
                 # a cache keyed by everything the result depends on keeps the property: without a call history that
                 # changes a result this is not a violation, only something the frame analysis cannot decide
@@ -260,6 +267,10 @@ def native_witness_for(q, seed):
         f = fc.funcs.get(q)
         if f is not None and any("module-level state" in w for _, w, _ in f.findings):
             return native_order_witness()
+        if "_DataGenerators" in q:
+            gb, _ = native_generator_witness(seed)
+            if gb:
+                return gb[:3]
         bad, _ = native_loss_witness(seed)
         return bad[:3] or None
     except Exception:
@@ -319,9 +330,23 @@ def native_generator_witness(seed):
     return bad, n
 
 
+def _host_state(g):
+    """the same generator state with its array leaves held as (writable) NumPy arrays: a state restored from a host
+    checkpoint"""
+    def conv(x):
+        if isinstance(x, jax.Array) and not jnp.issubdtype(x.dtype, jax.dtypes.prng_key):
+            return np.array(x)
+        return x
+    return jax.tree_util.tree_map(conv, g)
+
+
 def _native_generator_witness(seed):
     bad, n = [], 0
-    for name, mk in _generators().items():
+    gens = dict(_generators())
+    for nm_ in ("DataGeneratorODE", "CubicMeshPDEStatio", "CubicMeshPDENonStatio", "DataGeneratorObservations"):
+        mk0 = gens[nm_]
+        gens[nm_ + "[state restored from host (NumPy) arrays]"] = (lambda mk0=mk0: _host_state(mk0().get_batch()[0]))
+    for name, mk in gens.items():
         g = mk()
         for step in range(4):           # across a reshuffle
             before = snap(g)
@@ -345,7 +370,7 @@ def _native_generator_witness(seed):
                 bad.append(f"{name}.get_batch differs between eager and jit (call #{step})")
             if not rep:
                 bad.append(f"{name}.get_batch is not repeatable on the same generator (call #{step})")
-            g = g1
+            g = g1 if "NumPy" not in name else _host_state(g1)
     return bad, n
 
 
